@@ -45,6 +45,7 @@ struct Features {
     comps: bool,
     dyn_slots: bool,
     root_slots: bool,
+    dup_keys: bool,
     model: bool,
     events: bool,
     type_flip: bool,
@@ -774,6 +775,8 @@ impl<'a> Ctx<'a> {
 
 pub struct ValGen {
     pub u: u64,
+    /// records sometimes share their key value (the runtime then derives keys by order of appearance)
+    pub dup_keys: bool,
 }
 
 impl ValGen {
@@ -800,12 +803,14 @@ impl ValGen {
         }
     }
     pub fn sub_record(&mut self, r: &mut Rng) -> Value {
-        json!({"k": self.uniq_num(), "v": self.scalar(r)})
+        let k = if self.dup_keys && r.chance(0.3) { json!(1 + r.below(2)) } else { self.uniq_num() };
+        json!({"k": k, "v": self.scalar(r)})
     }
     pub fn record(&mut self, r: &mut Rng) -> Value {
         let n = r.below(3);
         let sub: Vec<Value> = (0..n).map(|_| self.sub_record(r)).collect();
-        json!({"k": self.uniq_num(), "v": self.scalar(r), "w": self.scalar(r), "sub": sub})
+        let k = if self.dup_keys && r.chance(0.4) { json!(1 + r.below(2)) } else { self.uniq_num() };
+        json!({"k": k, "v": self.scalar(r), "w": self.scalar(r), "sub": sub})
     }
     pub fn records(&mut self, r: &mut Rng, max: usize) -> Value {
         let n = r.below(max + 1);
@@ -1030,6 +1035,7 @@ pub fn generate_with(seed: u64, prop: Prop, deep: bool) -> World {
         comps: rc.chance(0.55),
         dyn_slots: rc.chance(0.4),
         root_slots: rc.chance(0.25),
+        dup_keys: rc.chance(0.15),
         model: rc.chance(if prop == Prop::C11 { 0.95 } else { 0.5 }),
         events: rc.chance(0.5),
         type_flip: rc.chance(0.3),
@@ -1149,7 +1155,7 @@ pub fn generate_with(seed: u64, prop: Prop, deep: bool) -> World {
         scripts.push(("utils/s".to_string(), WXS_EXT.to_string()));
     }
 
-    let mut vg = ValGen { u: 100 };
+    let mut vg = ValGen { u: 100, dup_keys: f.dup_keys };
     let data = gen_data(&mut rd, &mut vg);
     let safe = used_index_reads && safe_splice_pref;
     let schedule = gen_schedule(&mut ro, &mut vg, &f, safe, prop, deep);
